@@ -64,11 +64,12 @@ const (
 	baseVisitors  = 4000000
 	baseLocalFail = 5000000
 	baseChurn     = 6000000
+	basePreLogin  = 7000000
 )
 
 func main() {
 	run = h.NewRun(prop, "exploration")
-	run.Rule = "health: PRNG-generated probe outcome sequences over {2xx, non-2xx, timeout, refusal} x maxFailed 0-4 x interval/timeout 1-2 s (http, probe-exact) and closed-listener window scripts (tcp); distinct = (type, settings, outcome sequence). reload: PRNG-generated histories of 3-6 configuration sets over 5 proxy and 2 visitor names (add/remove/change/reorder/duplicate/no-op, api or http reload, burst or settled); distinct = (operation list, application modes). gating: segment scripts per health-checked proxy; distinct = (settings, observed outcome string). visitors: 3 visitors whose bindPort is held by the harness, then removed / moved / kept by a reload after 0-2 unchanged reloads (or ports freed first as control); distinct = (variant, unchanged reloads, order). churn: rounds of 30-54 one-round names, 40% removed / 30% changed after 0-200 us; distinct = (server kind, entries, rounds/50). localfail: {tls2raw, https2http} x {real frps, scripted server} x 1-2 failed cycles before the certificate files appear; distinct = these. scripted: 7 templates (start error xk, missing reply + late reply, removed / changed while the reply is outstanding, health-gated work connections with and without a held reply, unchanged reloads, reload at 0-2 ms after a re-login is accepted); distinct = (template, parameters)"
+	run.Rule = "health: PRNG-generated probe outcome sequences over {2xx, non-2xx, timeout, refusal} x maxFailed 0-4 x interval/timeout 1-2 s (http, probe-exact) and closed-listener window scripts (tcp); distinct = (type, settings, outcome sequence). reload: PRNG-generated histories of 3-6 configuration sets over 5 proxy and 2 visitor names (add/remove/change/reorder/duplicate/no-op, api or http reload, burst or settled); distinct = (operation list, application modes). gating: segment scripts per health-checked proxy; distinct = (settings, observed outcome string). visitors: 3 visitors whose bindPort is held by the harness, then removed / moved / kept by a reload after 0-2 unchanged reloads (or ports freed first as control); distinct = (variant, unchanged reloads, order). churn: rounds of 30-54 one-round names, 40% removed / 30% changed after 0-200 us; distinct = (server kind, entries, rounds/50). prelogin: reload (remove/add/change) before the first login, server reachable afterwards, scripted and real frps; distinct = (server, reloads, delay). localfail: {tls2raw, https2http} x {real frps, scripted server} x 1-2 failed cycles before the certificate files appear; distinct = these. scripted: 7 templates (start error xk, missing reply + late reply, removed / changed while the reply is outstanding, health-gated work connections with and without a held reply, unchanged reloads, reload at 0-2 ms after a re-login is accepted); distinct = (template, parameters)"
 	run.Assumptions = []string{
 		"http probes are observed at a recording RoundTripper wrapped around http.DefaultTransport; it delegates to the real transport and only opens/closes the harness's own backend listener between two probes",
 		"a refused tcp probe is invisible to the backend: tcp health scripts are judged with lower bounds on elapsed time (at most floor(W/interval)+1 probes fit into a closed window of measured length W)",
@@ -117,6 +118,7 @@ func main() {
 	phase("gating", func() { run.ParallelRange(baseGating, nGating, 20, gatingCase) })
 	phase("scripted", func() { run.ParallelRange(baseScripted, nScripted, 32, scriptedCase) })
 	phase("visitors", func() { run.ParallelRange(baseVisitors, run.N(6, 48), 8, unstartableVisitorCase) })
+	phase("prelogin", func() { run.ParallelRange(basePreLogin, run.N(4, 24), 4, preLoginReloadCase) })
 	phase("localfail", func() { run.ParallelRange(baseLocalFail, run.N(6, 48), 8, localFailCase) })
 	wg.Wait()
 	// the churn phase runs alone: it oversubscribes the processors on purpose
